@@ -115,3 +115,19 @@ impl<T: Clone> Flat<T> for Ray<T> {
     fn rd(a: &[T]) -> Self { Ray { origin: Flat::rd(&a[0..3]), direction: Flat::rd(&a[3..6]) } }
     fn wr(&self, out: &mut Vec<T>) { self.origin.wr(out); self.direction.wr(out); }
 }
+
+// ---- Bezier curves: control points in declaration order ----
+use vek::bezier::repr_c::{QuadraticBezier2, QuadraticBezier3, CubicBezier2, CubicBezier3};
+macro_rules! flat_bez {
+    ($B:ident $V:ident $d:expr; $($f:ident)+) => {
+        impl<T: Clone> Flat<T> for $B<T> {
+            const N: usize = $d * [$(stringify!($f)),+].len();
+            fn rd(a: &[T]) -> Self { let mut k = 0; $( let $f: $V<T> = Flat::rd(&a[k..k + $d]); k += $d; )+ let _ = k; $B { $($f),+ } }
+            fn wr(&self, out: &mut Vec<T>) { $( self.$f.wr(out); )+ }
+        }
+    }
+}
+flat_bez!(QuadraticBezier2 Vec2 2; start ctrl end);
+flat_bez!(QuadraticBezier3 Vec3 3; start ctrl end);
+flat_bez!(CubicBezier2 Vec2 2; start ctrl0 ctrl1 end);
+flat_bez!(CubicBezier3 Vec3 3; start ctrl0 ctrl1 end);
